@@ -55,7 +55,20 @@ def refl_schema() -> Any:
     return _R
 
 
-HISTORY_OPS = ["dbc", "verify", "verify_dbc", "verify_can_c", "to_dict", "layout", "describe", "reflection", "cpp"]
+HISTORY_OPS = ["dbc", "verify", "verify_dbc", "verify_can_c", "to_dict", "layout", "describe", "reflection", "cpp",
+               "reflection_scribbled"]
+
+
+def scribble(x: Any) -> None:
+    """What a consumer may do with a record it was handed: edit it in place, at every level."""
+    if isinstance(x, dict):
+        for v in list(x.values()):
+            scribble(v)
+        x.clear()
+    elif isinstance(x, list):
+        for v in x:
+            scribble(v)
+        del x[:]
 
 
 def run_history(fcp: Any, ops: Any) -> None:
@@ -101,6 +114,9 @@ def run_history(fcp: Any, ops: Any) -> None:
                         pass
             elif op == "reflection":
                 fcp.reflection()
+            elif op == "reflection_scribbled":
+                # an earlier record of the same schema object, edited in place by its consumer
+                scribble(fcp.reflection())
             elif op == "cpp":
                 import fcp_cpp
 
